@@ -4,6 +4,8 @@ use rspack_sources::{Mapping, OriginalLocation};
 pub mod codec;
 pub mod rec_hasher;
 pub mod rope;
+pub mod tree;
+pub mod hist;
 
 pub fn unhex(h: &str) -> Vec<u8> {
   if h == "." {
